@@ -101,7 +101,11 @@ func c14Cleanup(sv *Srv, c *kit.Case, base map[string]int, closed bool, what str
 		c.Inconclusive = err.Error()
 		return nil
 	}
-	if n := sv.S.Stats().OutstandingTransactions; n != 0 {
+	st, sv1, ok := sv.stats(c, "C14", what)
+	if !ok {
+		return sv1
+	}
+	if n := st.OutstandingTransactions; n != 0 {
 		return kit.Violatef("C14:transaction-left-behind", "%s: %d transactions are still pending after the call returned and the node went quiet", what, n)
 	}
 	now := sv.C.Census()
